@@ -40,17 +40,19 @@ def corrupt_read(c):
 
 
 def corrupt_trace(tr):
+    """Always rejectable: a read result (or, failing that, the final table) gets a cell value 9 that no statement of the
+    workload ever writes (Vals = 0..2), so no linearization can explain it."""
     for e in tr:
-        if e.get("ev") == "ret" and isinstance(e.get("out"), dict) and "w" in e["out"]:
+        if e.get("ev") == "ret" and e.get("res") == "ok" and isinstance(e.get("out"), dict) and "w" in e["out"]:
             w = e["out"]["w"]
             if w:
-                w[0][1] = (w[0][1] + 1) % 3
+                w[0][1] = 9
             else:
-                w.append([1, 0, 0])
+                w.append([1, 9, 9])
             return tr
     for e in tr:
         if e.get("ev") == "final":
-            e["store"]["main"]["n"] += 1
+            e["store"]["main"]["w"] = [[1, 9, 9]]
     return tr
 
 
@@ -70,7 +72,7 @@ def run(ctx):
     first = True
     for fam, cfg, num, depth in FAMILIES[ctx.tier]:
         beh = bg.drop_prefixes(ctx.tlc_behaviours("Txn.tla", cfg, num=num, depth=depth, seed=ctx.seed + {"reads": 0, "full": 700}[fam]))
-        h = bg.require_actions(beh, ["Read", "Update", "Commit", "Begin", "Checkout", "Use", "SetAutocommit", "Savepoint", "RollbackTo"], fam)
+        h = bg.require_actions(beh, ["Read", "Update", "Commit", "Begin", "Checkout", "Use", "SetAutocommit", "Savepoint", "RollbackTo"], fam, ctx)
         ctx.cov.setdefault("action_histogram", {})[fam] = h
         cs = bg.txn_cases(ctx, beh, fam)
         if first:
